@@ -61,7 +61,24 @@ class Spec:
            and (issubclass(o, (cabc.Iterable, cabc.Container))) \
            and not issubclass(o, (cabc.Iterator, cabc.AsyncIterable, cabc.Awaitable)):
             return ('items', o, a[0])
-        if isinstance(o, type): return ('cls', o)       # shallow: Iterator, Generator, Callable, Awaitable, user generics, ...
+        if isinstance(o, type) and getattr(o, '__orig_bases__', None) and o.__module__ not in ('builtins', 'collections', 'collections.abc', 'typing'):
+            # user generic: an instance of the class that also satisfies each subscripted pseudo-superclass with the
+            # type parameters substituted (PEP 484 / 585 generics)
+            params = getattr(o, '__parameters__', ())
+            if not params:
+                params = []
+                for b in o.__orig_bases__:
+                    for p in getattr(b, '__parameters__', ()):
+                        if p not in params: params.append(p)
+            sub = dict(zip(params, a))
+            bases = []
+            for b in o.__orig_bases__:
+                bo = t.get_origin(b)
+                if bo is None or bo is t.Generic or bo is t.Protocol: continue
+                try: bases.append(b[tuple(sub.get(p, p) for p in b.__parameters__)] if getattr(b, '__parameters__', ()) else b)
+                except TypeError: bases.append(b)
+            return ('generic', o, tuple(bases))
+        if isinstance(o, type): return ('cls', o)       # shallow: Iterator, Generator, Callable, Awaitable, ...
         raise NotImplementedError(f'spec: unsupported hint {h!r}')
     def k(self, h):
         try:
@@ -70,6 +87,12 @@ class Spec:
         k = self.kind(h)
         if self.tower and k[0] == 'cls' and k[1] is float: return ('union_raw', (float, int))
         if self.tower and k[0] == 'cls' and k[1] is complex: return ('union_raw', (complex, float, int))
+        if self.tower and k[0] == 'subclass':
+            # "each float replaced by float | int ... at every nesting depth" (C18) - including inside type[...]
+            out = []
+            for c in k[1]:
+                out += [float, int] if c is float else [complex, float, int] if c is complex else [c]
+            return ('subclass', tuple(out))
         return k
     def _cls(self, x, c): return M.inst(x, self.C(c))
 
@@ -81,12 +104,13 @@ class Spec:
         if K == 'cls': return self._cls(x, k[1])
         if K == 'union_raw': return z3.Or(*[self._cls(x, c) for c in k[1]])
         if K == 'alias': return self.conforms(k[1], x)
+        if K == 'generic': return z3.And(self._cls(x, k[1]), *[self.conforms(b, x, seen) for b in k[2]])
         if K == 'alias_override':
             if h in seen: return self.conforms_noov(h, x)
             return self.conforms(k[1], x, seen + (h,)) if True else None
         if K == 'union': return z3.Or(*[self.conforms(m, x, seen) for m in k[1]])
         if K == 'literal':
-            return z3.Or(*[z3.And(M.typeof(x) == self.C(type(l)), M.eq(x, self.C(l))) for l in k[1]])
+            return z3.Or(*[z3.And(self._cls(x, type(l)), M.exacttype(x, self.C(type(l))), M.eq(x, self.C(l))) for l in k[1]])
         if K == 'annotated':
             return z3.And(self.conforms(k[1], x, seen), *[self.vmeaning(v, x) for v in k[2] if self.is_validator(v)])
         if K == 'subclass': return z3.And(self._cls(x, type), z3.Or(*[M.subc(x, self.C(c)) for c in k[1]]))
@@ -115,6 +139,7 @@ class Spec:
         if K == 'cls': return z3.Not(self._cls(x, k[1]))
         if K == 'union_raw': return z3.And(*[z3.Not(self._cls(x, c)) for c in k[1]])
         if K == 'alias': return self.must_reject(k[1], x, seen)
+        if K == 'generic': return z3.Or(z3.Not(self._cls(x, k[1])), *[self.must_reject(b, x, seen) for b in k[2]])
         if K == 'alias_override':
             if h in seen:
                 sv = self.overrides; self.overrides = {}
@@ -149,6 +174,7 @@ class Spec:
         if K == 'cls': return self._cls(x, k[1])
         if K == 'union_raw': return z3.Or(*[self._cls(x, c) for c in k[1]])
         if K == 'alias': return self.consistent(k[1], x, seen)
+        if K == 'generic': return z3.And(self._cls(x, k[1]), *[self.consistent(b, x, seen) for b in k[2]])
         if K == 'alias_override':
             if h in seen:
                 sv = self.overrides; self.overrides = {}
@@ -179,6 +205,7 @@ class Spec:
         k = self.k(h); K = k[0]
         if K in ('any', 'never', 'cls', 'union_raw', 'literal', 'subclass'): return 0
         if K == 'alias': return self.read_bound(k[1], seen)
+        if K == 'generic': return sum(self.read_bound(b, seen) for b in k[2])
         if K == 'alias_override':
             if h in seen: return 0
             return self.read_bound(k[1], seen + (h,))
@@ -194,6 +221,8 @@ class Spec:
         """yield (sequence_origin, item_hint, term of the sequence object, condition under which this node decides)"""
         k = self.k(h); K = k[0]
         if K in ('alias',): yield from self.root_sequences(k[1], x, path)
+        elif K == 'generic':
+            for b in k[2]: yield from self.root_sequences(b, x, path)
         elif K == 'annotated': yield from self.root_sequences(k[1], x, path)
         elif K == 'fixed':
             for i, c in enumerate(k[1]): yield from self.root_sequences(c, M.item(x, i), path)
